@@ -87,7 +87,7 @@ func (w *World) verifyFunc(key string) (fc *FuncCtx) {
 		return true
 	})
 	sig := obj.Type().(*types.Signature)
-	st := &State{guard: "true", vars: map[types.Object]Term{}, alias: map[types.Object]ast.Expr{}, ghost: map[string]Term{}, held: map[string]string{}, exprAlias: map[types.Object]ast.Expr{}}
+	st := &State{guard: "true", vars: map[types.Object]Term{}, alias: map[types.Object]ast.Expr{}, ghost: map[string]Term{}, held: map[string]string{}, exprAlias: map[types.Object]ast.Expr{}, regions: map[string]region{}, released: map[string]bool{}}
 	fc.oldState = st // placeholder for globalInit during entry
 	entryEnv := w.newEnv(pkg)
 	bind := func(v *types.Var, name string) {
@@ -119,6 +119,18 @@ func (w *World) verifyFunc(key string) (fc *FuncCtx) {
 		st.vars[rv] = fc.reg().Zero(rv.Type())
 	}
 	st.ghost["jslast"] = fc.fresh("jslast", types.Typ[types.String])
+	// event counters: one ghost counter per package-level channel the function sends on
+	ast.Inspect(decl, func(n ast.Node) bool {
+		if ss, ok := n.(*ast.SendStmt); ok {
+			if key := fc.globalKey(ss.Chan); key != "" {
+				name := "sends_" + key[strings.LastIndex(key, ".")+1:]
+				if _, have := st.ghost[name]; !have {
+					st.ghost[name] = fc.fresh(name, tInt)
+				}
+			}
+		}
+		return true
+	})
 	fc.bindGlobals(st, entryEnv, fc.contract)
 	for _, gi := range w.GlobalInvs {
 		// global invariants are proved once per package (verifyGlobalInvs) and hold everywhere
@@ -164,7 +176,13 @@ func (fc *FuncCtx) checkPost(st *State, vals []Term, n ast.Node) {
 		final, ok := st.vars[v]
 		_, isPtr := v.Type().Underlying().(*types.Pointer)
 		_, isIfaceAs := fc.reg().ifaceAs[fc.reg().typeKey(v.Type())]
-		if ok && (isPtr || isIfaceAs) {
+		contentsModified := false
+		for _, m := range fc.contract.Modifies {
+			if root, path := modPath(m.Expr); root == name && len(path) == 1 && path[0] == "[]" {
+				contentsModified = true // a slice parameter written in place: ensures speak about the final contents
+			}
+		}
+		if ok && (isPtr || isIfaceAs || contentsModified) {
 			env.vars[name] = final
 		} else {
 			env.vars[name] = fc.oldEnv.vars[name]
@@ -319,7 +337,7 @@ func (w *World) verifyLemma(l *Lemma) (fc *FuncCtx) {
 			panic(r)
 		}
 	}()
-	st := &State{guard: "true", vars: map[types.Object]Term{}, alias: map[types.Object]ast.Expr{}, ghost: map[string]Term{}, held: map[string]string{}, exprAlias: map[types.Object]ast.Expr{}}
+	st := &State{guard: "true", vars: map[types.Object]Term{}, alias: map[types.Object]ast.Expr{}, ghost: map[string]Term{}, held: map[string]string{}, exprAlias: map[types.Object]ast.Expr{}, regions: map[string]region{}, released: map[string]bool{}}
 	env := w.newEnv(pkg)
 	for _, p := range l.Params {
 		t := fc.fresh("lem_"+p.Name, p.Type)
@@ -354,7 +372,7 @@ func (w *World) verifyGlobalInvs(pkgPath string) (fc *FuncCtx) {
 			panic(r)
 		}
 	}()
-	st := &State{guard: "true", vars: map[types.Object]Term{}, alias: map[types.Object]ast.Expr{}, ghost: map[string]Term{}, held: map[string]string{}, exprAlias: map[types.Object]ast.Expr{}}
+	st := &State{guard: "true", vars: map[types.Object]Term{}, alias: map[types.Object]ast.Expr{}, ghost: map[string]Term{}, held: map[string]string{}, exprAlias: map[types.Object]ast.Expr{}, regions: map[string]region{}, released: map[string]bool{}}
 	fc.oldState = st
 	// initialisers of all package-level variables with a value
 	inits := map[*types.Var]ast.Expr{}
